@@ -33,6 +33,29 @@ pub fn run(tier: &str) -> ! {
 		"page granularity 4 KiB; a page is either at its last-synced content or at its content at the crash point".into(),
 	];
 	super::run_scenarios(&mut run, &scenarios(tier), &budget);
+	// an I/O failure first (every file operation index of every step), the workers finish their iteration, then the
+	// power goes
+	{
+		let mut s = scenario("io-failure-then-power-loss/hash", small_family(), if tier == "thorough" { 3 } else { 2 }, 0, CrashCfg::default(), false);
+		s.crash = None;
+		s.faults = true;
+		s.faults_then_power_loss = true;
+		s.property = "C12".into();
+		let t0 = std::time::Instant::now();
+		let (st, found) = graph_search(&s, &budget);
+		println!("  scenario {:<40} states={} edges={} fault-runs={} power-loss-images={} {:.1}s", s.name, st.states, st.transitions, st.faults.runs, st.faults.power_loss_images, t0.elapsed().as_secs_f64());
+		run.add_count("crash_images", st.faults.power_loss_images);
+		run.add_count("distinct_crash_images_recovered", st.faults.power_loss_images);
+		run.add_count("io_failure_then_power_loss_runs", st.faults.runs);
+		run.parts.push(json!({"scenario": s.name, "states": st.states, "edges": st.transitions, "fault_runs": st.faults.runs, "power_loss_images": st.faults.power_loss_images, "complete": st.complete}));
+		if let Some(f) = found {
+			let rendering = format!("scenario {} config {}\nhistory: {}\n{}: {}", f.scenario, f.cfg.short(), crate::core::hist_short(&f.history), f.fail.kind, f.fail.msg);
+			if f.fail.kind == "machinery" || f.fail.kind == "model-divergence" {
+				machinery_error(&rendering);
+			}
+			run.violation(found_to_json("C12", &f), &rendering);
+		}
+	}
 	let imgs = run.coverage.get("crash_images").and_then(|v| v.as_u64()).unwrap_or(0);
 	run.set("evaluations", json!(imgs));
 	run.set("distinct_nontrivial", json!(run.coverage.get("distinct_crash_images_recovered").and_then(|v| v.as_u64()).unwrap_or(0)));
